@@ -68,9 +68,25 @@ def _bfs_connected(n, edges):
 
 def check_graph(n, edges, numbering=None):
     """-> list of problems (empty if the property holds for this file)"""
+    try:
+        return _check_graph(n, edges, numbering)
+    except Exception as e:            # a failure of the real reader on a well-formed file is a finding
+        return ['%s: %s' % (type(e).__name__, str(e)[:100])]
+
+
+def _check_graph(n, edges, numbering=None):
     from symx.files import MemFile
     from gaddlemaps.components import MoleculeTop, are_connected
     problems = []
+    # a topology with the same atom numbers in other positions is loaded first: any number->position table that survives
+    # between loads would translate the bonds of the file under test through stale entries
+    if n >= 2 and numbering is None:
+        decoy_nums = [3 * i + 2 for i in range(n)]
+        decoy_nums = [decoy_nums[0]] + [decoy_nums[0] + 1] + decoy_nums[1:n - 1] if n > 2 else [decoy_nums[1], decoy_nums[1] + 7]
+        try:
+            MoleculeTop(MemFile(topology_text(n, [(0, 1)], sorted(decoy_nums)), 'decoy.itp'))
+        except Exception:
+            pass
     top = MoleculeTop(MemFile(topology_text(n, edges, numbering), 'gen.itp'))
     if top.name != 'GEN':
         problems.append('molecule name %r' % top.name)
